@@ -139,6 +139,7 @@ type Machine struct {
 	rpc       map[*Value]*rpcServer
 	httpS     *httpSide
 	protoMsgs []protoMsg
+	texts     []*sym.Term // documents built as text (display JSON)
 	hashes    map[string]Array
 	cborN     int
 	topicValidator Value
